@@ -684,8 +684,12 @@ package fit
 //@ ghost func nadded(f *File) int
 //@ ghost func nvalid(d *decoder) int
 
+//@@ C03: once the container has been chosen, the accessor that matches the file_id type has a container to return
+//@ pred wf_file(f *File) := heldType(f.FileId.Type) && (f.FileId.Type == FileTypeActivity ==> f.activity != nil) && (f.FileId.Type == FileTypeDevice ==> f.device != nil) && (f.FileId.Type == FileTypeSettings ==> f.settings != nil) && (f.FileId.Type == FileTypeSport ==> f.sport != nil) && (f.FileId.Type == FileTypeWorkout ==> f.workout != nil) && (f.FileId.Type == FileTypeCourse ==> f.course != nil) && (f.FileId.Type == FileTypeSchedules ==> f.schedules != nil) && (f.FileId.Type == FileTypeWeight ==> f.weight != nil) && (f.FileId.Type == FileTypeTotals ==> f.totals != nil) && (f.FileId.Type == FileTypeGoals ==> f.goals != nil) && (f.FileId.Type == FileTypeBloodPressure ==> f.bloodPressure != nil) && (f.FileId.Type == FileTypeMonitoringA ==> f.monitoringA != nil) && (f.FileId.Type == FileTypeActivitySummary ==> f.activitySummary != nil) && (f.FileId.Type == FileTypeMonitoringDaily ==> f.monitoringDaily != nil) && (f.FileId.Type == FileTypeMonitoringB ==> f.monitoringB != nil) && (f.FileId.Type == FileTypeSegment ==> f.segment != nil) && (f.FileId.Type == FileTypeSegmentList ==> f.segmentList != nil)
+
 //@ func (f *File) add(msg reflect.Value)
 //@   props C01 C03
+//@   ensures [wf] {C03} old(file_ready(f) && wf_file(f)) ==> wf_file(f)
 //@   gassign {C03} nadded(f) := nadded(f)+1
 //@   nosubtype
 //@   requires [valid] rvvalid(msg)
@@ -709,6 +713,7 @@ package fit
 //@   ensures [not-clean-eof] !iserr(err, errReadSize)
 //@   ensures [ready] err == nil ==> file_ready(f) && fresh(f.msgAdder)
 //@   ensures [supported] (err == nil) <==> heldType(f.FileId.Type)
+//@   ensures [wf] {C03} err == nil ==> wf_file(f)
 //@   ensures [activity] f.FileId.Type == FileTypeActivity ==> f.activity != nil && fresh(f.activity) && typeis[*ActivityFile](f.msgAdder) && f.msgAdder.(*ActivityFile) == f.activity
 //@   ensures [device] f.FileId.Type == FileTypeDevice ==> f.device != nil && fresh(f.device) && typeis[*DeviceFile](f.msgAdder) && f.msgAdder.(*DeviceFile) == f.device
 //@   ensures [settings] f.FileId.Type == FileTypeSettings ==> f.settings != nil && fresh(f.settings) && typeis[*SettingsFile](f.msgAdder) && f.msgAdder.(*SettingsFile) == f.settings
